@@ -124,6 +124,11 @@ def run(ctx):
     jobs.append(dict(module="Sm2KeyImpl", name="Sm2KeyImpl_pinned", constants=dict(Fixed="FALSE"), invariants=("NoPanic", "BadKeyAlwaysErr", "RefinesObj"),
                      workers=1, timeout=300, heap="1g", allow_fail=True))
     # heavy shards first; the JVMs share the machine
+    # behaviour beyond the listed property: public-key recovery (MC_C06rec); replayed as an OBSERVATION, never a verdict of C06
+    rec_out = os.path.join(ctx.scratch, "c06rec.ndjson")
+    jobs.insert(0, dict(module="MC_C06rec", name="MC_C06rec", workers=3, timeout=1200, heap="2g", invariants=("TypeOK",),
+                        constants=dict(Seed=ctx.seed, Keys=S([1, 2, 3] if ctx.tier == "quick" else range(1, 9)), Nonces=S([1, 2, 3, 4] if ctx.tier == "quick" else range(1, 9)),
+                                       OutFile=core.tla_str(rec_out))))
     res = ctx.tlc_many(jobs, parallel=6)
     pinned = res[-1]
     ctx.tlc_runs.remove(pinned)
@@ -159,6 +164,14 @@ def run(ctx):
     if min(seen.values()) == 0 or ventries != {"asn1", "x509digest", "asn1sm2", "x509", "legacy", "legacysm2"} or sentries != set(E_ALL):
         raise core.Infra("C06 plan is vacuous somewhere: %s verify entries %s sign entries %s" % (seen, sorted(ventries), sorted(sentries)))
 
+    # recovery: what the library does on the recoverable-key cases is recorded in the evidence (counts only)
+    saved = (ctx.fails, ctx.replayed, ctx.steps, dict(ctx.per_cfg))
+    ctx.fails = []
+    obs = ctx.replay(rec_out, cfgs.K_EC[0]) if os.path.exists(rec_out) else []
+    ctx.fails, ctx.replayed, ctx.steps, ctx.per_cfg = saved
+    ctx.extra["recover_observation"] = {"cases": core.count_lines(rec_out) if os.path.exists(rec_out) else 0, "deviations": len(obs),
+                                        "first": (core._shorten(obs[0]) if obs else None),
+                                        "note": "sm2.RecoverPublicKeysFromSM2Signature against the recoverable-key set of GB/T 32918.2 (MC_C06rec); outside the wording of C06, never a verdict"}
     ctx.replay_all(out, cfgs.K_EC)
     ctx.binding_guard(out, cfgs.K_EC[0])
     ctx.binding_guard(lastverify, cfgs.K_EC[0])
